@@ -112,6 +112,7 @@ type FnEnc struct {
 	rawUsed  map[string]bool
 	fbits    map[string]string
 	heapTouch int
+	pendingLoads []SV // loaded interface values of which the assume_loads predicate is assumed
 	subOf    map[string][2]string // substring term -> (string it was cut from, offset)
 	gaddrs   map[string]bool
 	stableGlobals map[string]bool
@@ -737,7 +738,22 @@ func (f *frame) oblige(kind, label, cond, text string, pos token.Pos) {
 	if e.safetyCount[base] > 1 {
 		name = fmt.Sprintf("%s~%d", base, e.safetyCount[base])
 	}
-	o := &Obl{Name: name, Kind: kind, Func: fnKey, PC: f.curPC, Cond: cond, NDecls: len(e.decls),
+	pcTerm := f.curPC
+	if len(e.pendingLoads) > 0 && e.top != nil && e.top.contract.AssumeLoads != "" {
+		// the predicate may range over the dynamic types known so far, so it is rendered
+		// when the obligation is emitted
+		sf := e.E.CS.Specs[e.top.contract.AssumeLoads]
+		if sf == nil || len(sf.Params) != 1 {
+			cfail("assume_loads: no unary spec %q", e.top.contract.AssumeLoads)
+		}
+		var cs []string
+		for _, v := range e.pendingLoads {
+			ctx := &evalCtx{f: f, pkg: e.E.typesPkg(sf.Pkg), bind: map[string]SV{sf.Params[0].Name: v}, heap: f.curHeap, what: "assume_loads"}
+			cs = append(cs, ctx.evalBoolText(sf.Body))
+		}
+		pcTerm = and(append([]string{pcTerm}, cs...)...)
+	}
+	o := &Obl{Name: name, Kind: kind, Func: fnKey, PC: pcTerm, Cond: cond, NDecls: len(e.decls),
 		Pos: e.posOf(pos), Text: text, enc: e, Trivial: cond == "true"}
 	e.obls = append(e.obls, o)
 }
